@@ -15,7 +15,7 @@ EXPLANATION = ("symbolic execution of the real reload path (reload_scripts_handl
                "change and the reload argument are solver variables; reloaded / untouched / removed contexts compared with the documented set equations")
 BOUNDS = {"quick": "tree of 10 files (3 scripts, scripts/s.py, app package with sibling, modules m1, m12, package m2 with x); one change of any kind on any file plus an optional second touch; 7 reload arguments",
           "thorough": "two changes of any kind"}
-OUTSIDE = "the file watchdog / inotify path; YAML parsing of the app configuration (update_yaml_config is a stub); trees other than the universe"
+OUTSIDE = "a named reload (global_ctx=NAME) combined with the deletion of other files (a named reload does not look at other files; the stale contexts stay until a default reload); the file watchdog / inotify path; YAML parsing of the app configuration (update_yaml_config is a stub); trees other than the universe"
 ASSUMPTIONS = ["glob/open/os.path replaced by an in-memory file universe with POSIX semantics; import edges are created by the scripts' own import statements (real module_import)"]
 
 ROOT = "/cfg/pyscript/"
@@ -78,7 +78,7 @@ def oracle(changes, arg, loaded_before):
 
 def reload_step(f1: int, k1: int, two: bool, f2: int, k2: int) -> bool:
     """
-    pre: 0 <= f1 < len(FILES) and 0 <= k1 <= 3 and 0 <= f2 < len(FILES) and 0 <= k2 <= P("maxk2") and (two or (f2 == 0 and k2 == 0)) and (not two or f1 != f2) and (P("arg") <= 1 or k1 <= 1) and (P("k1") is None or k1 == P("k1"))
+    pre: 0 <= f1 < len(FILES) and 0 <= k1 <= 3 and 0 <= f2 < len(FILES) and 0 <= k2 <= P("maxk2") and (two or (f2 == 0 and k2 == 0)) and (not two or f1 != f2) and (P("arg") <= 1 or (k1 <= 1 and k2 <= 1)) and (P("k1") is None or k1 == P("k1"))
     post: _
     """
     from vlib.world import mkworld
